@@ -11,6 +11,8 @@ def register(R):
     register_xfail(R)
     register_gather(R)
     register_assertions(R)
+    register_patch(R)
+    register_usefixture(R)
     R.shape("ExcHandler", __call__=dict(event=True, returns="any"))        # addOnException handler: called, does not raise (documented)
     R.shape("RunTestFactory", __call__=dict(event=True, returns="ARunTest", exsures=["True"]))
     R.shape("ARunTest", run=dict(event=True, returns="any", exsures=["True"]))
@@ -202,3 +204,38 @@ def register_assertions(R):
                         KEPT])
     R.contract("testtools.assertions:assert_that", props=["C07"], params={"matchee": "any", "matcher": "AMatcher", "message": "any", "verbose": "any"},
                pure=True, exsures=["not holds(matcher, matchee)", "typeof_is(exc, MismatchError)"], ensures=["holds(matcher, matchee)"])
+
+
+def register_patch(R):
+    R.contract(T_ + "patch", props=["C02"], params={"obj": "any", "attribute": "str", "value": "any"}, context={"A0": "ATTRS()"},
+               requires=["is_ref(obj)", "value is not MonkeyPatcher._NO_SUCH_ATTRIBUTE", "attr_get(ATTRS(), obj, attribute) is not MonkeyPatcher._NO_SUCH_ATTRIBUTE"],
+               modifies=["$attrs", "list(self._cleanups)"],
+               ensures=["ATTRS() == attr_set(A0, obj, attribute, value)",
+                        # exactly one undo action is registered, on top of what was registered before
+                        "butlast(listof(self._cleanups)) == old(listof(self._cleanups))",
+                        "len(listof(self._cleanups)) == old(len(listof(self._cleanups))) + 1"])
+    # useFixture: set up; on success register cleanUp, then the gathering of the fixture's details (which therefore runs first)
+    R.shape("AFixture", setUp=dict(signature="", event=True, returns="any", exsures=["True"]),
+            cleanUp=dict(signature="", event=True, returns="any", exsures=["True"]),
+            getDetails=dict(signature="", returns="dict[any=>SrcContent]", pure=True))
+    R.fields_of("AFixture", _details="maybe any")
+
+
+def register_usefixture(R):
+    R.inline_fn("testtools.compat:reraise")
+    KEPT = "forall(lambda vk: implies(kwget(D0_(self), vk) is not absent(), self._TestCase__details is not None and kwget(%s, vk) == kwget(D0_(self), vk)))" % D
+    R.contract(T_ + "useFixture", props=["C02", "C05"], params={"fixture": "AFixture"},
+               requires=["self._traceback_id_gens is not self._TestCase__details"],
+               frame_hist=True,
+               modifies=["hist(fixture)", "list(self._cleanups)", "self._TestCase__details", "dict(self._TestCase__details)",
+                         "dict(self._traceback_id_gens)", "f:n"],
+               # setUp failed: nothing is registered, the details gathered so far are kept, the error propagates
+               exsures=["listof(self._cleanups) == old(listof(self._cleanups))", KEPT,
+                        "is_snoc(hist(fixture)) and ev_name(hlast(hist(fixture))) == 'setUp'"],
+               ensures=["ret is fixture", "hist(fixture) == snoc(old(hist(fixture)), call('setUp', [], {}))",
+                        # cleanUp is registered first and the gathering of the fixture's details after it, so that (LIFO) the
+                        # details are gathered before the fixture is torn down
+                        "len(listof(self._cleanups)) == old(len(listof(self._cleanups))) + 2",
+                        "prefix_of(old(listof(self._cleanups)), listof(self._cleanups))",
+                        "self._TestCase__details is old(self._TestCase__details)",
+                        "implies(self._TestCase__details is not None, %s == old(%s))" % (D, D)])
